@@ -224,7 +224,9 @@ func (fv *FuncVerifier) evalCall(call *ast.CallExpr, st *State, stmt bool) []Ter
 		}
 		if _, ok := fv.spec.Pragmas["opaque_func_values"]; ok {
 			fv.u.note("call of function value %s treated as having no effect on modelled state, arbitrary results", o.Name())
-			return fv.havocResults(fv.typeOf(call), st)
+			res := fv.havocResults(fv.typeOf(call), st)
+			fv.funcValueView(o, call, res, st)
+			return res
 		}
 		reject("call of function value %s at %s", o.Name(), fv.pos(call.Pos()))
 	case *types.Func:
@@ -238,6 +240,40 @@ func (fv *FuncVerifier) evalCall(call *ast.CallExpr, st *State, stmt bool) []Ter
 	}
 	reject("unsupported call at %s", fv.pos(call.Pos()))
 	return nil
+}
+
+// funcValueView: `pragma func_value_view Field=SpecFn ...` names the result of calling the
+// function-valued field x.Field() (no arguments, one result): it is assumed equal to the
+// uninterpreted specification function SpecFn(x), so that a postcondition can speak about what
+// the function value returned. The assumption made is that the function value is deterministic
+// for the duration of the verified call (listed with the assumptions).
+func (fv *FuncVerifier) funcValueView(o *types.Var, call *ast.CallExpr, res []Term, st *State) {
+	pv, ok := fv.spec.Pragmas["func_value_view"]
+	if !ok || !o.IsField() || len(call.Args) != 0 || len(res) != 1 || res[0].Sort == nil {
+		return
+	}
+	se, ok := ast.Unparen(call.Fun).(*ast.SelectorExpr)
+	if !ok {
+		return
+	}
+	for _, kv := range strings.Fields(pv) {
+		f := strings.SplitN(kv, "=", 2)
+		if len(f) != 2 || f[0] != o.Name() {
+			continue
+		}
+		key := fv.spec.PkgPath + "." + f[1]
+		ssp, sfd := fv.prog.specs[key], fv.prog.decls[key]
+		if ssp == nil || sfd == nil || ssp.Kind != SKSpecFunc || ssp.Body != "" {
+			reject("pragma func_value_view: %s is not an uninterpreted specification function", key)
+		}
+		recv := fv.eval(se.X, st)
+		view := fv.pureApp(sfd.fn, ssp, []Term{recv}, st, call.Pos())
+		if len(view) != 1 || view[0].Sort == nil || view[0].Sort.Name != res[0].Sort.Name {
+			reject("pragma func_value_view: %s does not have the result type of %s", key, o.Name())
+		}
+		st.assume(eq(res[0], view[0]))
+		fv.u.note("result of function value %s assumed equal to %s(receiver): deterministic for the duration of the call", o.Name(), f[1])
+	}
 }
 
 func (fv *FuncVerifier) havocResults(t types.Type, st *State) []Term {
